@@ -1324,6 +1324,47 @@ void nan_boxes(char const *fname)
   vf::add_evals(broken.size() * plain.size() * 2);
 }
 
+
+// contains(outer, inner) for NON-EMPTY inner boxes whose volume (the product of their edge lengths) is not representable:
+// 65536 x 65536 wraps to 0 in 32-bit unsigned, 1e-30 x 1e-30 underflows to 0 in float.  Such a box has points; whether it
+// lies inside outer is decided by its faces.
+template <class T>
+void zero_volume_inner(char const *tname, T edge)
+{
+  constexpr dim_t N = 2;
+  using box = fcppt::math::box::object<T, N>;
+  using vec = typename box::vector;
+  std::string const e = std::string("contains/non-empty-inner-with-unrepresentable-volume<") + tname + ",2>";
+  if (!vf::entry_enabled(e) || !vf::mine(vf::hash_str(e)))
+    return;
+  vf::set_entry(e);
+  if (!vf::begin_case("inner boxes with edge %s x %s against outer boxes that do / do not contain them", tname, tname))
+    return;
+  T const zero = T(0);
+  struct sample
+  {
+    box outer, inner;
+    bool want;
+  };
+  T const e2 = edge + edge;
+  std::vector<sample> const samples{
+      {box(vec(zero, zero), vec(e2, e2)), box(vec(zero, zero), vec(edge, edge)), true},
+      {box(vec(zero, zero), vec(edge, edge)), box(vec(zero, zero), vec(edge, edge)), true},
+      {box(vec(zero, zero), vec(edge, edge)), box(vec(edge, edge), vec(e2, e2)), false},
+      {box(vec(edge, edge), vec(e2, e2)), box(vec(zero, zero), vec(edge, edge)), false},
+  };
+  unsigned k = 0;
+  for (sample const &sm : samples)
+  {
+    vf::note_distinct(vf::hash_mix(vf::hash_str(e), k));
+    VF_COUNT("contains/unrepresentable-volume-cases");
+    if (fcppt::math::box::contains(sm.outer, sm.inner) != sm.want)
+      vf::violation(std::string("contains/") + tname + ",2/" + (sm.want ? "false-for-subset" : "true-for-non-subset") + "(volume-of-inner-not-representable)", "mismatch", "sample #" + std::to_string(k));
+    ++k;
+  }
+  vf::add_evals(samples.size());
+}
+
 #ifndef VF_SLICE
 #define VF_SLICE -2 // single translation unit build: everything
 #endif
@@ -1364,6 +1405,8 @@ void vf_slice_3()
   float_selection<float>("float");
   nan_boxes<double>("double");
   nan_boxes<float>("float");
+  zero_volume_inner<unsigned>("unsigned", 65536U);
+  zero_volume_inner<float>("float", 1e-30F);
   vf::count("heavy/constructed", vf::heavy_stats().constructed);
   vf::count("heavy/moved", vf::heavy_stats().moved);
   vf::count("heavy/moved-from-reads(observed)", vf::heavy_stats().moved_from_reads);
